@@ -731,7 +731,7 @@ pub fn run(cx: &mut Ctx) {
     cx.check(
         "words-bytes-roundtrip",
         RULE,
-        Budget { quick: 30_000, thorough: 1_000_000, max_len: 5000 },
+        Budget { quick: 30_000, thorough: 200_000, max_len: 5000 },
         |u, st| {
             let (words, d) = bits::words(u, max_words);
             let remainders = words.len() <= 64 || u.ratio(1, 8);
@@ -759,7 +759,7 @@ pub fn run(cx: &mut Ctx) {
     cx.check(
         "rebuilt-json-index",
         RULE,
-        Budget { quick: 50_000, thorough: 2_000_000, max_len: 3000 },
+        Budget { quick: 50_000, thorough: 400_000, max_len: 3000 },
         |u, st| {
             let doc = gen_doc(u, max_repeat);
             let off_ib = u.below(8);
@@ -792,7 +792,7 @@ pub fn run(cx: &mut Ctx) {
     cx.check(
         "rebuilt-bp",
         "balanced sequences (0..=3000 pairs; deep/flat/random shapes) and raw G-bits words with len anywhere in 0..=64*words (stray bits past len kept): BalancedParens::new(words,len) vs from_words(Vec after byte round trip) vs from_words(&[u64] view of the serialized bytes) on len/total_ones/is_open/rank/excess/find_close/find_open/enclose/first_child/next_sibling/parent/depth/subtree_size/select0 at every position (<=1200 bits) or 200 probes + boundaries",
-        Budget { quick: 60_000, thorough: 2_000_000, max_len: 2500 },
+        Budget { quick: 60_000, thorough: 400_000, max_len: 2500 },
         |u, st| {
             let raw = u.ratio(1, 3);
             let (words, len) = if raw {
